@@ -22,6 +22,7 @@ import (
 	"github.com/MichaelMure/git-bug/verifshim/vctl"
 	"github.com/MichaelMure/git-bug/verifshim/vtime"
 
+	"verifharness/props/c08"
 	"verifharness/world"
 )
 
@@ -238,6 +239,13 @@ func readSeed(repo repository.RepoData, head string, blobName string) ([]Commit,
 // BuildTemplate creates, under root, one victim directory per (seed, situation) with a built
 // cache, a bare remote "origin" holding every valid entity, and returns the description.
 func BuildTemplate(root string, seed uint64) (*Meta, error) {
+	// the public key declared by seed I3 comes from the cached key file of C08 (generating one costs
+	// 0.3-0.6 s and would make the blob differ from run to run)
+	ks, err := c08.LoadKeys()
+	if err != nil {
+		return nil, err
+	}
+	spareKey := ks["K4"]
 	vctl.Activate(seed, 0)
 	vctl.SetActor("tmpl")
 	w, err := world.Create(root, []string{"A"}, []string{"origin"}, false)
@@ -451,7 +459,7 @@ func BuildTemplate(root string, seed uint64) (*Meta, error) {
 					mu.Login = "login-" + name
 					mu.AvatarUrl = "https://example.org/" + name + ".png"
 					if withKey {
-						mu.Keys = append(mu.Keys, identity.GenerateKey())
+						mu.Keys = append(mu.Keys, spareKey)
 					}
 				}
 			}); err != nil {
